@@ -24,3 +24,9 @@ def mutated_universe(tier, seed):
     """near-valid queries (gen/badq.py): a valid random query with one or two targeted mutations; most are invalid, some stay valid"""
     import badq
     return badq.frontend_universe(tier, seed)
+
+def spread(insts, n):
+    """n instances taken at an even stride over the whole list (every schema and family is represented in proportion), instead of a prefix"""
+    if len(insts) <= n: return list(insts)
+    step = len(insts) / n
+    return [insts[int(k * step)] for k in range(n)]
